@@ -4,6 +4,6 @@ CONSTANTS
   MaxRuleSeq = 2
   MaxLen = 3
   PoolCap = 5
-  Guard = FALSE
+  CapMode = "pool"
 INVARIANTS NoCrossCorruption PayloadIntact StillDecodable
 CHECK_DEADLOCK FALSE
